@@ -1,6 +1,6 @@
 """C04 — Version precedence is the SemVer total order; Eq, Ord, Hash agree (DESIGN §5 C04)."""
 from .. import versions as V
-from ..interp import Adt, Cell, Clo, Inconclusive, Interp, Panic, Policy, Ptr, StrV, Tok, is_some, ordering_to_int
+from ..interp import Adt, Cell, Clo, Inconclusive, Interp, Panic, Policy, Ptr, StrV, Tok, explore, is_some, ordering_to_int
 from ..report import path_sig
 
 CMP = "<Version as std::cmp::Ord>::cmp"
@@ -101,28 +101,34 @@ def identifier(ctx, rep, prog):
             rep.fail("T-IDENT", "Identifier|T-IDENT|missing %s" % key, "Identifier does not implement %s" % key)
             continue
         for a, b, exp in cases:
-            it = Interp(prog, Policy())
-            try:
-                r = it.call_body(key, [Ptr(Cell(mk(*a))), Ptr(Cell(mk(*b)))])
-            except Inconclusive as e:
-                rep.inconc("T-IDENT: " + e.reason, e.where)
-                continue
-            rep.path(("T-IDENT", path_sig(it)))
-            if kind == "cmp":
-                got = ordering_to_int(r)
-            elif kind == "pcmp":
-                got = ordering_to_int(r.fields[0]) if is_some(r) else None
-            else:
-                got, exp2 = r, (exp == 0)
-                if got == exp2:
+            def run(cx, a=a, b=b):
+                it = Interp(prog, Policy(), ctx=cx)
+                try:
+                    return ("ok", it.call_body(key, [Ptr(Cell(mk(*a))), Ptr(Cell(mk(*b)))]), it)
+                except Inconclusive as e:
+                    return ("inconclusive", e, it)
+            for cx, (st, r, it) in explore(run, limit=64):
+                if st == "inconclusive":
+                    rep.inconc("T-IDENT: " + r.reason, r.where)
+                    continue
+                rep.path(("T-IDENT", path_sig(it)))
+                note = " (one of the realisable text orders)" if cx.decisions else ""
+                if kind == "cmp":
+                    got = ordering_to_int(r)
+                elif kind == "pcmp":
+                    got = ordering_to_int(r.fields[0]) if is_some(r) else None
+                else:
+                    got, exp2 = r, (exp == 0)
+                    if got == exp2:
+                        rep.ok("T-IDENT")
+                    else:
+                        rep.fail("T-IDENT", "%s|T-IDENT|%s,%s" % (key, a, b), "eq = %s%s" % (got, note))
+                    continue
+                if got == exp:
                     rep.ok("T-IDENT")
                 else:
-                    rep.fail("T-IDENT", "%s|T-IDENT|%s,%s" % (key, a, b), "eq = %s" % got)
-                continue
-            if got == exp:
-                rep.ok("T-IDENT")
-            else:
-                rep.fail("T-IDENT", "%s|T-IDENT|%s,%s" % (key, a, b), "ordering %s, expected %s" % (_o(got), _o(exp)))
+                    rep.fail("T-IDENT", "%s|T-IDENT|%s,%s" % (key, a, b), "ordering %s, expected %s%s" % (_o(got), _o(exp), note),
+                             example="1.0.0-rc.3 vs 1.0.0-rc.2-migration" if a[0] != b[0] else None)
     rep.analysed_item("derived Ord/PartialOrd/PartialEq of Identifier interpreted on 8 variant/order classes each")
 
 
@@ -137,17 +143,24 @@ def classification(ctx, rep, prog):
         return
     ID = "Identifier"
     names = [v["name"] for v in prog.adts[ID]["variants"]]
-    for outcome in ("ok", "err"):
+    # the parsed value may be compared with literals (a numeric cutoff): the literals met are logged and the table is
+    # re-run with the value on either side of each of them
+    cases = [("err", None), ("ok", 7)]
+    tried = {7}
+    while cases:
+        outcome, value = cases.pop(0)
         pol = Policy()
+        pol.log_literals = set()
+        pol.free_literal_doms = ("parsed",)
         text = Tok("T", "text", "x", dom="text")
         seen = {}
 
-        def str_parse(interp, args, info, outcome=outcome, seen=seen):
+        def str_parse(interp, args, info, outcome=outcome, seen=seen, value=value):
             targs = info.get("targs", [])
             seen["ty"] = [prog.ty_str(t) for t in targs]
             from ..interp import err, ok
             if outcome == "ok":
-                return ok(Tok("I", "n", 7, dom="parsed"))
+                return ok(Tok("I", "n", value, dom="parsed"))
             return err(Tok("O", "parse_int_error"))
         pol.str_parse = str_parse
         it = Interp(prog, pol)
@@ -157,17 +170,23 @@ def classification(ctx, rep, prog):
             rep.inconc("T-CLASSIFY: " + e.reason, e.where)
             continue
         rep.path(("T-CLASSIFY", path_sig(it)))
+        for lit in pol.log_literals:
+            for x in (lit - 1, lit, lit + 1):
+                if 0 <= x < (1 << 64) and x not in tried and len(tried) < 30:
+                    tried.add(x)
+                    cases.append(("ok", x))
         good = False
         if isinstance(r, Adt) and r.name == ID:
             vn = names[r.variant]
             p = r.fields[0]
             if outcome == "ok":
-                good = vn == "Numeric" and isinstance(p, Tok) and p.name == "n"
+                good = vn == "Numeric" and isinstance(p, Tok) and p.name == "n" and p.off == 0
             else:
                 good = vn == "AlphaNumeric" and isinstance(p, Tok) and p.name == "text"
         if good and "u64" in seen.get("ty", []):
             rep.ok("T-CLASSIFY")
         else:
             rep.fail("T-CLASSIFY", "%s|T-CLASSIFY|parse=%s" % (key, outcome),
-                     "classification returned %r (parse type %s)" % (r, seen.get("ty")))
+                     "classification of %s returned %r (parse type %s)" % (
+                         "text that does not parse" if outcome == "err" else "the number %d" % value, r, seen.get("ty")))
     rep.analysed_item("identifier::{closure#1} interpreted with str::parse stubbed to Ok(n) / Err")
